@@ -1,6 +1,7 @@
 import Sigc.Model
 import Sigc.Spec
-import Sigc.Lemmas.InvTracks3
+import Sigc.Lemmas.InvObj2
+import Sigc.Lemmas.InvTeardown
 import Sigc.Lemmas.InvExamples
 /-!
 # C02 — destroying a trackable invalidates and disconnects every slot that refers to it
@@ -113,6 +114,70 @@ theorem delT_invalidates_all {s s' : St} {r : String} (hw : WF s) (t o : Nat) (h
   have hw0 : WF { s with T := adel s.T t } := hw
   obtain ⟨h1, h2, h3, _, h5, _⟩ := invalidates_all hw0 o
   refine ⟨by rw [h5]; simp, h1, fun k v hk hv => (h2 k v hk hv).1, h3⟩
+
+/-- object ids are never reused and a dead object never comes back: "allocated and not alive" is
+    preserved by every operation, emission and functor invocation -/
+theorem destroyed_stays_dead (o : Nat) (fuel : Nat) (P : Prog) (s : St) (op : Op) (r : St × Except Unit String)
+    (hd : OD o s) (h : execOp fuel P s op = some r) : OD o r.1 :=
+  (OD.stable o).execOp hd h
+
+/-- **the library never refers to the destroyed object again**: take any reachable state, destroy the
+    trackable named `t` (object `o`), then continue the program in any way (any operations, any emissions,
+    re-use of the name `t` for a new trackable included).  In every later state no rep of any user slot or
+    connected slot refers to `o` — nothing is left through which the library could read or write it -/
+theorem destroyed_never_tracked (fuel fuel' : Nat) (P : Prog) (s s1 s2 : St) (r : String) (ls : List Line)
+    (t o : Nat) (h : runTop fuel P {} P.top = some s) (ht : aget s.T t = some o)
+    (hd : stepSimple s (.delT t) = some (s1, r)) (h2 : runTop fuel' P s1 ls = some s2) : NoTrack o s2 := by
+  have hwtl := WTL.reachable fuel P s h
+  have hou := OU.reachable fuel P s h
+  have hwtl1 : WTL s1 := WTL.stable.simple s _ s1 r trivial hwtl hd
+  have hod1 : OD o s1 := dead_after_delT hou ht hd
+  have hwtl2 := WTL.stable.runTop_from fuel' P ls s1 s2 hwtl1 h2
+  have hod2 := (OD.stable o).runTop_from fuel' P ls s1 s2 hod1 h2
+  exact noTrack_of_dead hwtl2.1 hwtl2.2 hod2
+
+/-- the same with the destruction executed as a program line (`execLine`: step count, operation, trace
+    entry, collection of owned objects), exactly as the driver runs it -/
+theorem destroyed_never_tracked_line (fuel f f' : Nat) (P : Prog) (s s1 s2 : St) (txt : String) (oc : Outcome)
+    (ls : List Line) (t o : Nat) (h : runTop fuel P {} P.top = some s) (ht : aget s.T t = some o)
+    (hl : execLine f P s ⟨txt, .delT t⟩ = some (s1, oc)) (h2 : runTop f' P s1 ls = some s2) :
+    NoTrack o s2 := by
+  have hwtl := WTL.reachable fuel P s h
+  have hou := OU.reachable fuel P s h
+  have hwtl1 : WTL s1 := WTL.stable.execLine hwtl hl
+  have hod1 : OD o s1 := by
+    cases f with
+    | zero => rw [execLine] at hl; cases hl
+    | succ f =>
+      rw [execLine] at hl
+      simp only at hl
+      have key : ∀ (s0 : St) (res : Except Unit String),
+          execOp f P { s with steps := s.steps + 1 } (.delT t) = some (s0, res) → OD o s0 := by
+        intro s0 res he
+        have hou' : OU { s with steps := s.steps + 1 } := hou
+        rcases execOp_simple_of t (by simp) he with ⟨r0, hs⟩ | ⟨hs, _⟩
+        · exact dead_after_delT hou' ht hs
+        · simp [stepSimple] at hs
+          split at hs <;> cases hs
+      split at hl
+      · cases hl
+      · rename_i s0 _ he
+        simp only [Option.some.injEq, Prod.mk.injEq] at hl
+        rw [← hl.1]
+        exact (OD.stable o).collect _ trivial ((OD.stable o).log _ _ trivial (key _ _ he))
+      · rename_i s0 _ he
+        simp only [Option.some.injEq, Prod.mk.injEq] at hl
+        rw [← hl.1]
+        exact (OD.stable o).collect _ trivial ((OD.stable o).log _ _ trivial (key _ _ he))
+  have hwtl2 := WTL.stable.runTop_from f' P ls s1 s2 hwtl1 h2
+  have hod2 := (OD.stable o).runTop_from f' P ls s1 s2 hod1 h2
+  exact noTrack_of_dead hwtl2.1 hwtl2.2 hod2
+
+/-- the same statement for a state in which the object is already dead, at every operation boundary -/
+theorem dead_never_tracked (o : Nat) (fuel : Nat) (P : Prog) (s : St) (op : Op) (r : St × Except Unit String)
+    (hs : WTL s) (hd : OD o s) (h : execOp fuel P s op = some r) : NoTrack o r.1 := by
+  have h1 := WTL.stable.execOp hs h
+  exact noTrack_of_dead h1.1 h1.2 ((OD.stable o).execOp hd h)
 
 /-! ### examples -/
 
